@@ -98,12 +98,17 @@ void fp2_inv_sim(fp2_t *c, const fp2_t *a, int n) {
 	int i;
 	fp2_t u, *t = RLC_ALLOCA(fp2_t, n);
 
-	for (i = 0; i < n; i++) {
-		fp2_null(t[i]);
+	if (t != NULL) {
+		for (i = 0; i < n; i++) {
+			fp2_null(t[i]);
+		}
 	}
 	fp2_null(u);
 
 	RLC_TRY {
+		if (t == NULL) {
+			RLC_THROW(ERR_NO_MEMORY);
+		}
 		for (i = 0; i < n; i++) {
 			fp2_new(t[i]);
 		}
@@ -129,8 +134,10 @@ void fp2_inv_sim(fp2_t *c, const fp2_t *a, int n) {
 		RLC_THROW(ERR_CAUGHT);
 	}
 	RLC_FINALLY {
-		for (i = 0; i < n; i++) {
-			fp2_free(t[i]);
+		if (t != NULL) {
+			for (i = 0; i < n; i++) {
+				fp2_free(t[i]);
+			}
 		}
 		fp2_free(u);
 		RLC_FREE(t);
